@@ -50,11 +50,17 @@ def _with_alarm(seconds: int, fn: Callable, *args):
 def with_watchdog(seconds: int, fn: Callable, *args):
     """Run fn under a watchdog.  A first timeout is retried once with a much longer limit: on a loaded machine a short
     limit can expire although the call takes milliseconds, and a timeout must never be a false alarm."""
-    global _CONFIRMED_TIMEOUTS
+    global _CONFIRMED_TIMEOUTS, _SHORT_TIMEOUTS
+    if _CONFIRMED_TIMEOUTS >= 3 and _SHORT_TIMEOUTS >= 20:
+        raise fw.EnoughEvidence("the code under test did not terminate on 23 inputs; ending the run with the violations recorded so far")
     if _CONFIRMED_TIMEOUTS >= 3:
         # the code under test has been seen not to terminate within the long limit three times in this run: later timeouts are
         # reported after the short limit (the run already fails; the point is to finish and report)
-        return _with_alarm(1, fn, *args)
+        try:
+            return _with_alarm(1, fn, *args)
+        except Timeout:
+            _SHORT_TIMEOUTS += 1
+            raise
     try:
         return _with_alarm(seconds, fn, *args)
     except Timeout:
@@ -66,6 +72,7 @@ def with_watchdog(seconds: int, fn: Callable, *args):
 
 
 _CONFIRMED_TIMEOUTS = 0
+_SHORT_TIMEOUTS = 0
 
 
 def tparse(src: str):
@@ -3132,8 +3139,9 @@ LEAN_OBLIGATIONS.update({
                             "show `fuel` as a difference); error positions inside the text: oracle only"],
     ),
     "C13": dict(
-        modules=["Tumfl.Props.C13"],
-        obligations=["Tumfl.Props.C13_parsed", "Tumfl.Props.C13_emit_on", "Tumfl.Props.C13_emit_off", "Tumfl.Props.C13_placement"],
+        modules=["Tumfl.Props.C13", "Tumfl.Props.C08"],
+        obligations=["Tumfl.Props.C13_parsed", "Tumfl.Props.C13_emit_on", "Tumfl.Props.C13_emit_off", "Tumfl.Props.C13_placement",
+                     "Tumfl.Props.C08_comment_wf", "Tumfl.Props.C08_comment_text"],
         extractors=["FmtTables", "Brackets"],
         tie_names=["T2:format (comment pieces through every stage to the final text)", "T2:parse (comment lists on statement tokens)"],
         partial_hypotheses=["proved: parse then emit yields as comment pieces exactly the statement comments of the tree, in order, once each, in front of their statements; that "
@@ -3189,7 +3197,8 @@ LEAN_OBLIGATIONS.update({
     ),
 })
 LAYOUT_OBL = ["Tumfl.Props.C08_remove_separators", "Tumfl.Props.C08_add_spacing", "Tumfl.Props.C08_remove_orphaned", "Tumfl.Props.C08_resolve_tokens",
-              "Tumfl.Props.C08_join", "Tumfl.Props.C08_indent_brackets", "Tumfl.Props.C08_string_wrap", "Tumfl.Props.C08_wrap_progress", "Tumfl.Props.C02_boundary"]
+              "Tumfl.Props.C08_join", "Tumfl.Props.C08_indent_brackets", "Tumfl.Props.C08_string_wrap", "Tumfl.Props.C08_wrap_progress", "Tumfl.Props.C02_boundary",
+              "Tumfl.Props.C08_comment_wf", "Tumfl.Props.C08_comment_text"]
 PIECE_OBL = ["Tumfl.Props.C11_roundtrip", "Tumfl.Props.C11_emit_is_par", "Tumfl.Props.C11_emit_roundtrip", "Tumfl.Props.C11_minified", "Tumfl.Inst.brackets_sound_all",
              "Tumfl.Props.C06_quoted", "Tumfl.Props.C06_long", "Tumfl.Props.C06_forms", "Tumfl.Props.C07_partial", "Tumfl.Props.C13_emit_on"]
 FORMAT_MODULES = ["Tumfl.Props.C08", "Tumfl.Props.C11", "Tumfl.Props.C06", "Tumfl.Props.C07", "Tumfl.Props.C13"]
